@@ -1,4 +1,5 @@
 import UbxModel.Proofs.Layout
+import UbxModel.Model.Messages
 namespace Ubx
 open Spec
 
@@ -12,9 +13,6 @@ theorem Table.layout_append (a b : Table) (o : Nat) :
   | cons x r ih =>
     obtain ⟨n, k⟩ := x
     cases k <;> simp [Table.layout, ih, Table.size_cons, Kind.width, Nat.add_assoc]
-
-/-- the table of a message with `n` repeated blocks -/
-def blocks (blk : Nat → Table) (n : Nat) : Table := (List.range n).flatMap blk
 
 theorem blocks_succ (blk : Nat → Table) (n : Nat) : blocks blk (n + 1) = blocks blk n ++ blk n := by
   simp [blocks, List.range_succ]
